@@ -26,7 +26,21 @@ Dict == << "r0", "r16", "r31", "r32", "X", "Y+", "-Z", "Y+5", "Z+63", "X+1",
            "-1", "256", "65536", "4194304", "9223372036854775807", "-9223372036854775807",
            "", "9223372036854775808", "99999999999999999999999", "1<<64", "1/0", "-9223372036854775807-2",
            "(", "((1)", "@9", "\"unterminated", "''", "exp2(70)", "nosuchfn(1)", "~", "0x", "a = b", "=",
-           "ATmega48", "a = a", "(1<<63) % -1", "(1<<63) / -1", "-(1<<63)", "1<<63>>63", "5 % -1" >>
+           "ATmega48", "a = a", "(1<<63) % -1", "(1<<63) / -1", "-(1<<63)", "1<<63>>63", "5 % -1",
+           "0xFFFFFFFF", "4294967296", "0x7FFFFFFF", "\"rel/dir\"", "@0+@0" >>
+
+\* contexts a line can stand in (each head with at most one operand is put into each of them)
+Contexts == << <<"", "">>,                                         \* on its own
+               <<".if 0\n", "\n.endif\n">>,                        \* in a skipped branch
+               <<".if 1\n", "\n.endif\n">>,                        \* in an assembled branch
+               <<".if 0\n.endif\n.if 0\nnop\n", "\nnop\n.else\nnop\n.endif\n">>,   \* where an .elif / .else is looked for
+               <<".ifdef NOPE\n", "\n.else\nnop\n.endif\n">>,
+               <<".macro m\n", "\n.endm\nm r16, 1\n">>,            \* in a macro body that is called
+               <<".macro m\n.if @1\n", "\n.endif\n.endm\nm r16, 0\nm r17, 1\n">>,
+               <<".dseg\n", "\n.cseg\nnop\n">>,
+               <<".eseg\n.db 1\n", "\n.db 2\n">>,
+               <<".device ATtiny2313\n.eseg\n", "\n">>,
+               <<".device ATtiny13\n.org 500\n", "\nnop\n">> >>
 
 Outcomes == {"ok", "err", "panic", "abort", "timeout", "oom", "shape"}
 Total(outcome) == outcome \in {"ok", "err"}
